@@ -76,6 +76,19 @@ def scripted_class(script, st):
     return Scripted
 
 
+class _Served(object):
+    """Recording proxy for one dense piece: notes its index when it is evaluated."""
+    def __init__(self, k, piece, log):
+        self._k, self._p, self._log = k, piece, log
+
+    def __call__(self, t):
+        self._log.append(self._k)
+        return self._p(t)
+
+    def __getattr__(self, n):
+        return getattr(self._p, n)
+
+
 def _events(roots_of_model):
     fns = []
     for k in sorted({r["ev"] for r in roots_of_model}):
@@ -247,6 +260,29 @@ def replay(log, method):
             # without dense output the pieces exist only while events are examined (sol is None for the user)
             if dense and (len(ends) != len(p["sol"]) or not all(tol(a, m["b"] * S) for a, m in zip(ends, p["sol"]))):
                 mism.append({"call": ncall, "what": "Pieces", "model": [m["b"] * S for m in p["sol"]], "code": ends})
+            elif dense and sol is not None and ends and not approx and "look" in p and p["look"]["scalar"]:
+                # which piece answers a query at every half tick of the covered range: the model's lookup table against the real
+                # container (the answering piece is observed through recording proxies), scalar and array path
+                pieces = list(sol.y_interpolants)
+                served = []
+                sol.y_interpolants = [_Served(k, pc, served) for k, pc in enumerate(pieces)]
+                try:
+                    lk = p["look"]
+                    qs = [(lk["lo2"] + k) * S / 2.0 for k in range(len(lk["scalar"]))]
+                    got_s = []
+                    for q in qs:
+                        del served[:]
+                        sol(q)
+                        got_s.append(served[-1] + 1 if served else 0)
+                    del served[:]
+                    sol(np.array(qs))
+                    got_v = [k + 1 for k in served]
+                finally:
+                    sol.y_interpolants = pieces
+                if got_s != list(lk["scalar"]) or got_v != list(lk["array"]):
+                    mism.append({"call": ncall, "what": "Lookup", "queries": qs, "model_scalar": list(lk["scalar"]), "code_scalar": got_s,
+                                 "model_array": list(lk["array"]), "code_array": got_v, "piece_ends": ends})
+                st["lookups"] = st.get("lookups", 0) + 2 * len(qs)
             d = float(sys_.dt)
             if not (abs(abs(d) - abs(p["dt"]) * S) <= 1e-9 and (d > 0) == (p["dt"] > 0)) and not approx:
                 mism.append({"call": ncall, "what": "Dt", "model": p["dt"] * S, "code": d})
